@@ -371,7 +371,49 @@ static void run_single(seqx::Runner &R, const SScript &sc) {
     R.end(true);
 }
 
+// two interval generators on one scheduler; the stop token of the first fires while both sleep: exactly its own sleep ends
+static cocls::async<void> two_tickers(cocls::scheduler &sch, int pa, int pb, int res[4]) {
+    vstd::stop_source src;
+    auto ga = sch.interval(units(pa), src.get_token());
+    auto gb = sch.interval(units(pb));
+    long t0 = us_of(vstd::chrono::system_clock::now());
+    cocls::future<std::size_t> fa = ga();
+    cocls::future<std::size_t> fb = gb();
+    src.request_stop();
+    bool ha = co_await fa.has_value();
+    res[0] = ha ? 1 : 0;
+    res[1] = (int)(us_of(vstd::chrono::system_clock::now()) - t0);
+    bool hb = co_await fb.has_value();
+    res[2] = hb ? 1 : 0;
+    res[3] = (int)(us_of(vstd::chrono::system_clock::now()) - t0);
+}
+static void run_two_intervals(seqx::Runner &R, int pa, int pb) {
+    char nm[64];
+    snprintf(nm, sizeof nm, "two-intervals;a=%d;b=%d", pa, pb);
+    R.begin(nm);
+    {
+        int res[4] = {-1, -1, -1, -1};
+        {
+            cocls::scheduler sch;
+            cocls::future<void> task = two_tickers(sch, pa, pb, res).start();
+            sch.start(task);
+            R.step();
+        }
+        if (res[0] != 0 || res[1] != 0)
+            R.fail("sched/single/stop-token-wrong-target", "the stopped interval generator %s after %d us (it must end at once, without a tick)", res[0] ? "ticked" : "ended", res[1]);
+        if (res[2] != 1 || res[3] != pb * UNIT_US)
+            R.fail("sched/single/stop-token-wrong-target", "the interval generator nobody stopped %s after %d us (its tick is due at %ld us)", res[2] == 1 ? "ticked" : "ended without a tick", res[3],
+                   (long)pb * UNIT_US);
+        R.outcome(seqx::mix((uint64_t)pa, (uint64_t)pb));
+        R.state(seqx::hash_str(nm));
+    }
+    R.end(true);
+}
+
 static void s_enum(seqx::Runner &R, bool thorough) {
+    for (int pa = 1; pa <= 3; pa++)
+        for (int pb = 1; pb <= 3; pb++)
+            if (R.next_case()) run_two_intervals(R, pa, pb);
     static const int durs[] = {0, 1, 2, 3};
     int maxn = 3;
     for (int n = 1; n <= maxn; n++) {
@@ -527,6 +569,10 @@ void seqx_replay(seqx::Runner &R, const std::string &c) {
         std::string tok;
         while (std::getline(ss, tok, ',')) order.push_back(atoi(tok.c_str()));
         run_heap(R, order, atoi(c.c_str() + c.find("cancel=") + 7));
+    } else if (c.rfind("two-intervals;", 0) == 0) {
+        int pa = 1, pb = 1;
+        sscanf(c.c_str(), "two-intervals;a=%d;b=%d", &pa, &pb);
+        run_two_intervals(R, pa, pb);
     } else if (c.rfind("manual;", 0) == 0) {
         std::vector<int> seq;
         std::stringstream ss(c.substr(c.find("ops=") + 4));
